@@ -20,8 +20,8 @@ from vlib.core import Stage, fail
 ID = "C18"
 MANIFEST = {
     "category": "exploration",
-    "text": "Generated-input search (stage extract): condition and AHB expressions over key numbers 0..3000 with the borders 0/1/499/500/900/901/999/1000/1999/2000/2499/2500 over-weighted, at most one out-of-range key per expression, packages, time conditions; extract_categorized_keys must put every key into the list an independent range function names, list it once, keep condition keys ascending by number, reject the expression iff a key is out of range, satisfy extract(A op B) = extract(A) + extract(B) for every operator and for AHB concatenation, and with resolve_packages/replace_time_conditions equal the extract of the textually substituted expression. Stage enumeration is a complete enumeration over all (m, n) with m, n <= 5 (thorough: <= 6): the multiset of (requirement, format) maps from generate_possible_content_evaluation_results must equal the Cartesian product, each element exactly once, hints filled for every hint key.",
-    "note": "Trusted: ref.key_category, ref.subst_*, the generators. (m, n) = (0, 0) is exempt (the code documents [] there). Key strings with leading zeros are distinct keys; ties in numeric order may appear in any order. Process configuration by shard (vlib/sut.py; recorded in replay files): plain / parse caches preheated beyond their size / warnings attributed to ahbicht raised as errors / logging fully enabled with every record rendered.",
+    "text": "Generated-input search (stage extract): condition and AHB expressions over key numbers 0..3000 with the borders 0/1/499/500/900/901/999/1000/1999/2000/2499/2500 over-weighted, at most one out-of-range key per expression, packages, time conditions; extract_categorized_keys must put every key into the list an independent range function names, list it once, keep condition keys ascending by number, reject the expression iff a key is out of range, satisfy extract(A op B) = extract(A) + extract(B) for every operator and for AHB concatenation, and with resolve_packages/replace_time_conditions equal the extract of the textually substituted expression. Stage enumeration is a complete enumeration over all (m, n) with m, n <= 5 (thorough: <= 6): the multiset of (requirement, format) maps from generate_possible_content_evaluation_results must equal the Cartesian product, each element exactly once, hints filled for every hint key. The enumeration grid also contains the cells with 7 (thorough: 8) requirement keys.",
+    "note": "Trusted: ref.key_category, ref.subst_*, the generators. (m, n) = (0, 0) is exempt (the code documents [] there). Key strings with leading zeros are distinct keys; ties in numeric order may appear in any order. Process configuration by shard (vlib/sut.py; recorded in replay files): plain / parse caches preheated beyond their size / warnings attributed to ahbicht raised as errors / logging fully enabled with every record rendered; one event loop per process or a new one per call; five process time zones; the hash seed is the shard number; namesakes of ahbicht's marshmallow schema classes are registered.",
     "technique": "property-based testing against an independent range function and algebraic (union) law; exhaustive enumeration of (m, n) for the Cartesian-product clause",
 }
 LEVEL = "exploration"
@@ -235,6 +235,9 @@ def check_enumeration(case):
 def enumerate_grid(tier, shard, nshards, seed):
     bound = BOUNDS[tier]
     cells = [(m, n) for m in range(bound["max_m"] + 1) for n in range(bound["max_n"] + 1)]
+    # a few cells beyond the grid: the implementation filters C(4m, m) candidates, which takes about a second for 7
+    # requirement keys and ten for 8 - where a shortcut with a cut-off would sit
+    cells += [(7, 0), (7, 1)] if tier == "quick" else [(7, 0), (7, 1), (7, 3), (8, 0), (8, 1)]
     # heavy cells first so that shards are balanced
     cells.sort(key=lambda c: -(4 ** c[0]) * (2 ** c[1]))
     for index, (m, n) in enumerate(cells):
